@@ -8,4 +8,5 @@ pub mod c08_enc;
 pub mod c09;
 pub mod probe_be;
 pub mod c11_dft;
+pub mod c18;
 pub mod generated;
